@@ -145,6 +145,33 @@ type compiler struct {
 	Optimize    bool
 	Returns     []int
 	FuncName    string
+	localTypes  []localType // the types declared in the open blocks, innermost last
+}
+
+// localType is a type declared inside a function. The type itself lives in a global
+// named after the function; the name is bound for the rest of the declaring block.
+type localType struct {
+	name   string
+	locals *lookup // the function the declaration belongs to
+	depth  int     // number of open blocks at the declaration
+	slots  int     // number of local slots at the declaration: later variables have a higher index
+	global int
+}
+
+// localTypeIndex resolves a name to the global of a type declared in an enclosing block
+// of the current function, unless a variable declared after that type shadows it.
+func (c *compiler) localTypeIndex(name string) (int, bool) {
+	for n := len(c.localTypes) - 1; n >= 0; n-- {
+		lt := c.localTypes[n]
+		if lt.name != name || lt.locals != c.Locals {
+			continue
+		}
+		if c.Locals.Exists(name) && c.Locals.Index(name) >= lt.slots {
+			return 0, false
+		}
+		return lt.global, true
+	}
+	return 0, false
 }
 
 func compilePkgs(g *lookup, pkgs []*token, optimize bool) (ins []instruction, slots int, err error) {
@@ -208,6 +235,9 @@ func (c *compiler) Shadow(key string) int {
 }
 
 func (c *compiler) End() {
+	for n := len(c.localTypes); n > 0 && c.localTypes[n-1].depth == len(c.scope); n-- {
+		c.localTypes = c.localTypes[:n-1]
+	}
 	b := c.Locals.Len()
 	a := c.scope[len(c.scope)-1]
 	c.scope = c.scope[:len(c.scope)-1]
@@ -535,8 +565,8 @@ func (c *compiler) compile(tok *token) []instruction {
 		key := c.expPrefix(tok.Text)
 		if tok.Text == "$" {
 			res = append(res, instruction{Code: codeGlobalGet, A: reg(c.Globals.Index("$"))})
-		} else if c.isLocal() && c.Globals.Exists(c.FuncName+"."+tok.Text) {
-			res = append(res, instruction{Code: codeGlobalGet, A: reg(c.Globals.Index(c.FuncName + "." + tok.Text))})
+		} else if idx, ok := c.localTypeIndex(tok.Text); ok {
+			res = append(res, instruction{Code: codeGlobalGet, A: reg(idx)})
 		} else if c.Locals.Exists(tok.Text) {
 			res = append(res, instruction{Code: codeLocalGet, A: reg(c.Locals.Index(tok.Text))})
 		} else if c.Globals.Exists(key) {
@@ -887,8 +917,10 @@ func (c *compiler) compile(tok *token) []instruction {
 			// setStruct = codeLocalSet
 			// getStruct = codeLocalGet
 			// idx = c.Shadow(key)
+			name := key
 			key = c.FuncName + "." + key
 			idx = c.Globals.Index(key)
+			c.localTypes = append(c.localTypes, localType{name: name, locals: c.Locals, depth: len(c.scope), slots: c.Locals.Len(), global: idx})
 		} else {
 			key = c.expPrefix(key)
 			idx = c.Globals.Index(key)
